@@ -218,6 +218,12 @@ func (P *Prog) verifyFunctionCase(fn *ssa.Function, con *Contract, caseParam str
 		if lbl == "" {
 			lbl = fmt.Sprint(i)
 		}
+		// a clause labelled "...!assumed" is part of the contract callers rely on but is not checked against
+		// the body (it describes code outside the verifier's reach); it is reported as an assumption
+		if strings.HasSuffix(lbl, "!assumed") {
+			vc.trusted[res.Name+" ["+lbl+"] "+e.Src+" (clause assumed, not proved)"] = true
+			continue
+		}
 		// cover: the antecedent of an implication must be reachable, otherwise the clause is proved vacuously
 		if e.Expr.Op == "bin" && e.Expr.Name == "==>" && !strings.Contains(lbl, "!slow") {
 			n0 := len(vc.out)
